@@ -24,7 +24,8 @@ LEVEL = 'exploration'
 TECHNIQUE = 'bounded exhaustive enumeration of common-subset programs, each compiled (gfortran) and run differentially against the Python class over all period positions and an option lattice'
 RULE = ('programs: every binary operator and max/min over ordered pairs of 6 literal-free leaves, unary/nested contexts, 2-3 equation systems, long equations (30/60 terms), a 40-variable '
         'system, and literal-bearing contexts; per compiled model: evaluate at every t in [-L-1, L], solve_t over t x min_iter x max_iter (incl. 0) x offset x failures x 2 data vectors, '
-        'solve over start/end (None, the falsy label 0, an inner label)/offset/failures/max_iter. non-trivial = comparison in which both back-ends ran (or both rejected) for a compiled model')
+        'solve over start/end (None, the falsy label 0, an inner label)/offset/failures/max_iter. non-trivial = comparison in which both back-ends ran (or both rejected) for a compiled model'
+        " Names beginning with an underscore; the instance's reassigned check list (3 lists x 3 entry points) on every program with two or more endogenous variables.")
 ASSUMPTIONS = [
     'f2py is replaced by a ctypes adaptor with the same call signature (integer vectors passed as given)',
     'values compared to 1e-12 relative (libm vs NumPy exp/log/pow); iteration counts not compared on knife-edge convergence (last step within 4x of tol)',
@@ -187,6 +188,22 @@ def compare_models(Py, F, tier, acc=None):
         ra, rb = outcome(a.solve_t, t, max_iter=5, failures='ignore'), outcome(b.solve_t, t, max_iter=5, failures='ignore')
         if ra != rb or not close(a.values, b.values, 1e-10):
             note('solve_t:constructed-with-arguments', dict(kwargs={k: str(v) for k, v in kwargs.items()}, python=ra, fortran=rb))
+    # the convergence-check list of the *instance* (reassigned after construction: one variable only, reversed) is what both engines watch
+    endo = list(Py.ENDOGENOUS)
+    if len(endo) >= 2:
+        for chk in ([endo[0]], [endo[-1]], list(reversed(endo))):
+            for entry in ('solve_t', 'solve_period', 'solve'):
+                a, b = fill(Py(range(L)), 1, L), fill(F(range(L)), 1, L)
+                a.check, b.check = list(chk), list(chk)
+                t = Py.LAGS
+                kw = dict(max_iter=60, tol=1e-9, failures='ignore')
+                if entry == 'solve':
+                    ra, rb = outcome(a.solve, **kw), outcome(b.solve, **kw)
+                else:
+                    ra, rb = outcome(getattr(a, entry), t, **kw), outcome(getattr(b, entry), t, **kw)
+                n += 1
+                if ra[0] != rb[0] or a.status.tolist() != b.status.tolist() or not close(a.values, b.values, 1e-8) or int(np.max(np.abs(a.iterations - b.iterations))) > 1:
+                    note('%s:instance-check-list' % entry, dict(check=chk, python=ra, fortran=rb, status=[a.status.tolist(), b.status.tolist()], iterations=[a.iterations.tolist(), b.iterations.tolist()]))
     # evaluate at every position, both spellings, infeasible ones included
     for t in range(-L - 1, L + 1):
         a, b = fill(Py(range(L)), 0, L), fill(F(range(L)), 0, L)
